@@ -291,7 +291,14 @@ func main() {
 	case "check":
 		res := g.check(*prop, *tier, *out, *timeout, *seed, *par, *verbose)
 		if len(res.ToolErrors) > 0 {
-			for _, e := range res.ToolErrors {
+			for i, e := range res.ToolErrors {
+				if i >= 4 {
+					fmt.Printf("TOOL-ERROR ... and %d more\n", len(res.ToolErrors)-i)
+					break
+				}
+				if len(e) > 400 {
+					e = e[:400]
+				}
 				fmt.Println("TOOL-ERROR", e)
 			}
 			os.Exit(2)
